@@ -102,10 +102,11 @@ func init() {
 
 func init() {
 	reg(PropCfg{ID: "C03", Pkg: "c03", Level: "exploration",
-		Rule: "rule x context table: 51 statement-level rules (operand/argument/assignment/condition/branch/iterator mismatches, arity, unknown identifier/type/member, break/continue outside loops, implicit any, ...) each instantiated as a well-typed snippet and its single-fault ill-typed twin inside 15 syntactic contexts (function body, nested block, if/else, loops, lambda body, lambda in loop, match arms, try/catch, after a closure literal, value block) plus 41 whole-program rules (return types, duplicates, non-constant global, main shape, singletons, triggers, impl blocks vs template, imports): the good twin must get no error-level diagnostic, the bad twin at least one; random accept direction: generated well-typed programs must be accepted and the analyzer's recorded type of every top-level let equals the generator's type; non-trivial = every ill-typed twin (differs from an accepted base at exactly one site) and generated programs with >= 3 type kinds; distinct by (rule, context) / program text",
+		Rule: "rule x context table: 51 statement-level rules (operand/argument/assignment/condition/branch/iterator mismatches, arity, unknown identifier/type/member, break/continue outside loops, implicit any, ...) each instantiated as a well-typed snippet and its single-fault ill-typed twin inside 15 syntactic contexts (function body, nested block, if/else, loops, lambda body, lambda in loop, match arms, try/catch, after a closure literal, value block) plus 41 whole-program rules (return types, duplicates, non-constant global, main shape, singletons, triggers, impl blocks vs template, imports): the good twin must get no error-level diagnostic, the bad twin at least one; random accept direction: generated well-typed programs must be accepted and the analyzer's recorded type of every top-level let equals the generator's type; random reject direction: single-fault mutants of generated programs (every fault site of the base in the thorough tier: operand, argument, arity, condition, iterator, index, list element, branch, annotated let) must be rejected; non-trivial = every ill-typed twin (differs from an accepted base at exactly one site) and generated programs with >= 3 type kinds; distinct by (rule, context) / program text",
 		Jobs: []Job{
 			{Name: "rules", Run: "^TestTableRules$", Shards: [2]int{4, 8}},
 			{Name: "accept", Run: "^TestAcceptGenerated$", Checks: [2]int{1500, 20000}, Shards: [2]int{4, 16}},
+			{Name: "mutants", Run: "^TestRejectMutants$", Checks: [2]int{400, 2000}, Shards: [2]int{4, 16}},
 		}})
 }
 
